@@ -13,6 +13,7 @@ Tables (regenerated on every run): Gen/Pratt (parser/expr.rs), Gen/Expand (ast_e
 -/
 import PrqlModel.Lemmas.Pratt
 import PrqlModel.Lemmas.ExprSem
+import PrqlModel.Lemmas.SqlSem
 import PrqlModel.Model.SqlPrec
 namespace Props.C02
 open Gen.Pratt Model.PExpr Model.Pratt Lemmas.Pratt
@@ -146,5 +147,111 @@ theorem sql_print_parse_counterexample_mul_mod :
 theorem sql_print_parse_counterexample_concat :
     parse sqliteTbl (pr npEmit (.bin (.bin .StringConcat) (.bin (.bin .Multiply) (.leaf (.col 0)) (.leaf (.col 1))) (.leaf (.col 2)) : ETree))
       = some (.bin (.bin .Multiply) (.leaf (.col 0)) (.bin (.bin .StringConcat) (.leaf (.col 1)) (.leaf (.col 2))), []) := by decide
+
+/-! ## T5  meaning of the SQL chosen per operator -/
+open Model.SqlExpr Lemmas.SqlSem
+
+/-- T5: per operator, SQLite's operation on INTEGER / REAL / NULL computes the documented operation -/
+theorem sql_tree_meaning (a b c : SVal) :
+    -- comparison with the literal null: IS NULL / IS NOT NULL
+    (sIsNull a).toValue = vIsNull a.toValue ∧ (sNot (sIsNull a)).toValue = vNot (vIsNull a.toValue) ∧
+    -- `in lo..hi`: BETWEEN
+    betweenVal a.toValue b.toValue c.toValue = some (sAnd (sCmp .ge a b) (sCmp .le a c)).toValue ∧
+    -- `??`: COALESCE
+    (sCoalesce a b).toValue = vCoalesce a.toValue b.toValue ∧
+    -- `/` (sqlite dialect): `(l * 1.0 / r)` is real division
+    vDivF a.toValue b.toValue = some (sDiv (sMul a (.real 1)) b).toValue ∧
+    -- arithmetic, comparisons, three-valued logic
+    vAdd a.toValue b.toValue = some (sAdd a b).toValue ∧ vSub a.toValue b.toValue = some (sSub a b).toValue ∧
+    vMul a.toValue b.toValue = some (sMul a b).toValue ∧ (∀ k, vCmp k a.toValue b.toValue = some (sCmp k a b).toValue) ∧
+    (sAnd a b).toValue = vAnd a.toValue b.toValue ∧ (sOr a b).toValue = vOr a.toValue b.toValue ∧
+    (sNot a).toValue = vNot a.toValue ∧ (sNeg a).toValue = vNeg a.toValue :=
+  ⟨(is_null_meaning a).1, (is_null_meaning a).2, between_meaning a b c, coalesce_meaning a b, real_division_meaning a b,
+   add_meaning a b, sub_meaning a b, mul_meaning a b, fun k => cmp_meaning k a b, and_meaning a b, or_meaning a b,
+   not_meaning a, neg_meaning a⟩
+
+/-- CASE: first true branch, NULL without a default -/
+theorem sql_case_meaning (ρ : SEnv) (c v rest : SqlE) (vc : SVal) (hc : evalS ρ c = some vc) :
+    evalS ρ (.caseW c v rest) = (if vc.toValue.truth = some true then evalS ρ v else evalS ρ rest) :=
+  case_meaning ρ c v rest vc hc
+
+/-- `//`: the sqlite template is truncating division except for INTEGER operands with 0 < |l| < |r| (all pairs of [-9,9]),
+and for every pair with a REAL dividend k/2; the generic template is right on all integer pairs of [-9,9] -/
+theorem sql_div_i_meaning_partial :
+    intRange.all (fun l => intRange.all fun r =>
+      (decide (0 < l.natAbs ∧ l.natAbs < r.natAbs)) ||
+        (vDivI (.num l) (.num r) == some (divITemplateSqlite (.int l) (.int r)).toValue)) = true ∧
+    intRange.all (fun l => intRange.all fun r =>
+      (vDivI (.num ((l : Rat) / 2)) (.num r) == some (divITemplateSqlite (.real ((l : Rat) / 2)) (.int r)).toValue)) = true ∧
+    intRange.all (fun l => intRange.all fun r =>
+      (vDivI (.num l) (.num r) == some (divITemplateGeneric (.int l) (.int r)).toValue)) = true :=
+  ⟨div_i_sqlite_partial_bounded, div_i_sqlite_real_bounded, div_i_generic_bounded⟩
+
+theorem sql_div_i_counterexample :
+    (divITemplateSqlite (.int 1) (.int 2)).toValue = .num (-1) ∧ vDivI (.num 1) (.num 2) = some (.num 0) :=
+  div_i_sqlite_counterexample
+
+/-- the emitted texts, on columns -/
+theorem sql_text_null_comparison :
+    sqlPrint .sqlite (staticEval (expand (.bin .Eq (.col 0) (.lit .null)))) = some ['a', ' ', 'I', 'S', ' ', 'N', 'U', 'L', 'L'] ∧
+    sqlPrint .sqlite (staticEval (expand (.bin .Ne (.lit .null) (.col 0))))
+      = some ['a', ' ', 'I', 'S', ' ', 'N', 'O', 'T', ' ', 'N', 'U', 'L', 'L'] := by
+  constructor <;> decide +kernel
+
+/-! ## the property end to end, and its counterexamples on the unchanged tree -/
+
+/-- "the emitted SQL evaluates to the value of the tree": wherever the source tree has a documented value on a row of
+integers / NULLs, SQLite computes that value from the SQL text printed for dialect `d` -/
+def SurvivesToSql (d : Dialect) : Prop :=
+  ∀ (e : SExpr) (ρ : List (Option Int)) (v : Value), evalDoc (envV ρ) e = some v → sqlValue d ρ e = some v
+
+/-- `(a == b) < c` is emitted as `a = b < c`; on (5, 5, 5): documented 1 < 5 = true, SQLite `5 = (5 < 5)` = false -/
+theorem survives_counterexample_comparison_chain : ¬ SurvivesToSql .sqlite := by
+  intro h
+  have := h (.bin .Lt (.bin .Eq (.col 0) (.col 1)) (.col 2)) [some 5, some 5, some 5] (.num 1) (by decide +kernel)
+  revert this; decide +kernel
+
+/-- `a * (b % c)` is emitted as `a * b % c` -/
+theorem survives_counterexample_mul_mod :
+    evalDoc (envV [some 2, some 3, some 2]) (.bin .Mul (.col 0) (.bin .Mod (.col 1) (.col 2))) = some (.num 2) ∧
+    sqlValue .sqlite [some 2, some 3, some 2] (.bin .Mul (.col 0) (.bin .Mod (.col 1) (.col 2))) = some (.num 0) := by
+  constructor <;> decide +kernel
+
+/-- `c == (a | in 1..5)` is emitted as `c = a BETWEEN 1 AND 5`, read as `(c = a) BETWEEN 1 AND 5` -/
+theorem survives_counterexample_between_operand :
+    evalDoc (envV [some (-7), none, some (-7)]) (.bin .Eq (.col 2) (.inRange (.col 0) (.lit (.int 1)) (.lit (.int 5)))) = some (.num 0) ∧
+    sqlValue .sqlite [some (-7), none, some (-7)] (.bin .Eq (.col 2) (.inRange (.col 0) (.lit (.int 1)) (.lit (.int 5)))) = some (.num 1) := by
+  constructor <;> decide +kernel
+
+/-- `1 // 2` on sqlite -/
+theorem survives_counterexample_div_i :
+    evalDoc (envV [some 1, some 2]) (.bin .DivInt (.col 0) (.col 1)) = some (.num 0) ∧
+    sqlValue .sqlite [some 1, some 2] (.bin .DivInt (.col 0) (.col 1)) = some (.num (-1)) := by
+  constructor <;> decide +kernel
+
+/-- `7 / 2` for the generic dialect -/
+theorem survives_counterexample_generic_division :
+    evalDoc (envV [some 7, some 2]) (.bin .DivFloat (.col 0) (.col 1)) = some (.num (7 / 2)) ∧
+    sqlValue .generic [some 7, some 2] (.bin .DivFloat (.col 0) (.col 1)) = some (.num 3) := by
+  constructor <;> decide +kernel
+
+/-- `(case [5 == 2 => a]) != 3 - a`: NULL by the documented meaning, `3 - a IS NOT NULL` = true in SQL -/
+theorem survives_counterexample_null_folding :
+    evalDoc (envV [some 1]) (.bin .Ne (.caseB (.bin .Eq (.lit (.int 5)) (.lit (.int 2))) (.col 0) .caseEnd) (.bin .Sub (.lit (.int 3)) (.col 0)))
+      = some .null ∧
+    sqlValue .sqlite [some 1] (.bin .Ne (.caseB (.bin .Eq (.lit (.int 5)) (.lit (.int 2))) (.col 0) .caseEnd) (.bin .Sub (.lit (.int 3)) (.col 0)))
+      = some (.num 1) := by
+  constructor <;> decide +kernel
+
+/-- `-(-a)` is printed `--a` (an SQL comment); with a space or parentheses SQLite would read it correctly -/
+theorem sql_print_counterexample_double_minus :
+    sqlPrint .sqlite (staticEval (expand (.un .Neg (.un .Neg (.col 0))))) = some ['-', '-', 'a'] := by decide +kernel
+
+-- positive instances (the pipeline is not vacuous): precedence, pow swap, real division, coalesce, case default
+example : sqlValue .sqlite [some 7, some 2, some 3] (.bin .Sub (.col 0) (.bin .Sub (.col 1) (.col 2))) = some (.num 8) := by decide +kernel
+example : sqlValue .sqlite [some 2, some 3] (.bin .Pow (.col 0) (.col 1)) = some (.num 8) := by decide +kernel
+example : sqlValue .sqlite [some 7, some 2] (.bin .DivFloat (.col 0) (.col 1)) = some (.num (7 / 2)) := by decide +kernel
+example : sqlValue .sqlite [none, some 2] (.bin .Coalesce (.col 0) (.col 1)) = some (.num 2) := by decide +kernel
+example : sqlValue .sqlite [some 0] (.caseB (.bin .Gt (.col 0) (.lit (.int 1))) (.lit (.int 5)) .caseEnd) = some .null := by decide +kernel
 
 end Props.C02
